@@ -21,7 +21,6 @@ fn all_distractors(n_terms: usize) -> Vec<Distractor> {
         Distractor::HpoaCommentMiddle,
         Distractor::DecipherRow,
         Distractor::GeneHeader(1),
-        Distractor::GeneHeader(2),
         Distractor::Typedef(0),
         Distractor::Typedef(1),
         Distractor::Typedef(n_terms),
@@ -41,7 +40,41 @@ fn all_distractors(n_terms: usize) -> Vec<Distractor> {
         Distractor::GeneHeaderLong(20_000),
         Distractor::HpoaCommentLong(20_000),
         Distractor::IsATrailingModifier,
+        Distractor::AnnotationFilesNoTrailingNewline,
+        Distractor::GeneFilledColumns,
+        Distractor::HeaderLinesBeforeDataVersion,
+        Distractor::ConsiderNamespaceTags,
+        Distractor::DuplicateIsA,
+        Distractor::IsATextInValues,
     ]
+}
+
+/// distractors that touch the gene files or the stanza layout: their single-distractor cases also run through
+/// from_standard_transitive
+fn also_transitive(d: &Distractor) -> bool {
+    matches!(
+        d,
+        Distractor::GeneHeader(_)
+            | Distractor::GeneTrailingColumns
+            | Distractor::GeneMinimalColumns
+            | Distractor::Typedef(_)
+            | Distractor::ExtraTags
+            | Distractor::TagsBetweenIsA
+            | Distractor::ExplicitNotObsolete
+            | Distractor::HpoaFilledColumns
+            | Distractor::HpoaMinimalColumns
+            | Distractor::NoHeaderBlock
+            | Distractor::TagsBeforeName
+            | Distractor::GeneHeaderLong(_)
+            | Distractor::HpoaCommentLong(_)
+            | Distractor::IsATrailingModifier
+            | Distractor::AnnotationFilesNoTrailingNewline
+            | Distractor::GeneFilledColumns
+            | Distractor::ConsiderNamespaceTags
+            | Distractor::DuplicateIsA
+            | Distractor::IsATextInValues
+            | Distractor::MissingDataVersion
+    )
 }
 
 /// facts as the text formats can express them (no bare records, no empty names)
@@ -62,33 +95,99 @@ fn with_opts(ctx: &mut Ctx, f: &Facts, o: &JaxOpts, transitive: bool, what: &str
         g.version = (0, 0, 0);
         // render() leaves the line out; the expectation is version 0000-00-00
     }
-    if o.has(&Distractor::NoHeaderBlock) {
-        // a loader may insist on a header (an error is tolerated); if it loads the file, every stanza counts
-        let rendered = jax::render(&g, o);
-        return match jax::load(&rendered, transitive) {
-            Ok(Ok(ont)) => {
-                let r = crate::model::RefOnt::derive(&g);
-                ctx.transitions(g.n_steps());
-                drive::check_against_model(ctx, &ont, &r, Mode::Defaults, if transitive { "jax transitive, no header block" } else { "jax, no header block" }, &|| json!({"facts": g.to_json(), "order": what, "hp.obo": rendered.obo}))
-            }
-            Ok(Err(_)) => None,
-            Err(p) => {
-                ctx.exec();
-                ctx.violation("Ontology::from_standard", "[jax, no header block] panics", json!({"facts": g.to_json(), "observed": p, "hp.obo": rendered.obo}));
-                None
-            }
-        };
+    if o.has(&Distractor::NoHeaderBlock) || o.has(&Distractor::MissingDataVersion) {
+        // the property does not say what a file without header block / without data-version line is worth: a loader
+        // may insist on either (an error is tolerated); if it loads the file, every stanza counts and the release
+        // version is the "unknown" one, 0000-00-00 (what the crate documents for ontologies without version)
+        let kind = if o.has(&Distractor::NoHeaderBlock) { "no header block" } else { "no data-version line" };
+        return tolerant(ctx, &g, o, transitive, what, kind);
     }
     via_jax(ctx, &g, o, transitive, what)
 }
 
+/// Policy-neutral run: the loader may refuse the files with an error; if it loads them the result must be the
+/// model of the facts. A panic is a violation either way. Returns Some(accepted?) unless the loader panicked.
+fn tolerant(ctx: &mut Ctx, g: &Facts, o: &JaxOpts, transitive: bool, what: &str, kind: &str) -> Option<Obs> {
+    tolerant_outcome(ctx, g, o, transitive, what, kind).1
+}
+
+fn tolerant_outcome(ctx: &mut Ctx, g: &Facts, o: &JaxOpts, transitive: bool, what: &str, kind: &str) -> (Option<bool>, Option<Obs>) {
+    let rendered = jax::render(g, o);
+    let case = || json!({"facts": g.to_json(), "order": what, "options": format!("{o:?}"), "transitive_loader": transitive, "hp.obo": rendered.obo, "phenotype.hpoa": rendered.hpoa, "genes": if transitive { &rendered.phenotype_to_genes } else { &rendered.genes_to_phenotype }});
+    match jax::load(&rendered, transitive) {
+        Ok(Ok(ont)) => {
+            let r = crate::model::RefOnt::derive(g);
+            ctx.transitions(g.n_steps());
+            let obs = drive::check_against_model(ctx, &ont, &r, Mode::Defaults, &format!("{}, {kind}", if transitive { "jax transitive" } else { "jax" }), &case);
+            (Some(true), obs)
+        }
+        Ok(Err(_)) => {
+            ctx.exec();
+            (Some(false), None)
+        }
+        Err(p) => {
+            ctx.exec();
+            ctx.violation("Ontology::from_standard", &format!("[jax, {kind}] panics"), json!({"case": case(), "observed": p}));
+            (None, None)
+        }
+    }
+}
+
+/// The canonical rendering with NO file under the name of the gene file the loader does not read.
+fn other_file_absent(ctx: &mut Ctx, f: &Facts, transitive: bool) {
+    let r = crate::model::RefOnt::derive(f);
+    let rendered = jax::render(f, &JaxOpts::default());
+    ctx.transitions(f.n_steps());
+    let path = if transitive { "jax transitive, no genes_to_phenotype.txt in the folder" } else { "jax, no phenotype_to_genes.txt in the folder" };
+    let case = || json!({"facts": f.to_json(), "transitive_loader": transitive, "hp.obo": rendered.obo, "phenotype.hpoa": rendered.hpoa, "genes": if transitive { &rendered.phenotype_to_genes } else { &rendered.genes_to_phenotype }});
+    match jax::load_with(&rendered, transitive, jax::OtherGeneFile::Absent) {
+        Ok(Ok(ont)) => {
+            drive::check_against_model(ctx, &ont, &r, Mode::Defaults, path, &case);
+        }
+        Ok(Err(e)) => {
+            ctx.exec();
+            ctx.violation("Ontology::from_standard", &format!("[{path}] rejects valid JAX files"), json!({"case": case(), "observed": e}));
+        }
+        Err(p) => {
+            ctx.exec();
+            ctx.violation("Ontology::from_standard", &format!("[{path}] panics on valid JAX files"), json!({"case": case(), "observed": p}));
+        }
+    }
+}
+
+/// valid calendar dates: every month with the days 1, 9, 10, 11, 19, 20, 21, 28, 29, 30, 31 it has (2024, a leap
+/// year), and the years 1 ... 9999 at the turn of the year and on 10-10
+fn release_dates() -> Vec<(u16, u8, u8)> {
+    let mut v = vec![];
+    for m in 1..=12u8 {
+        let last = match m {
+            2 => 29,
+            4 | 6 | 9 | 11 => 30,
+            _ => 31,
+        };
+        for d in [1u8, 9, 10, 11, 19, 20, 21, 28, 29, 30, 31] {
+            if d <= last {
+                v.push((2024u16, m, d));
+            }
+        }
+    }
+    for y in [1u16, 9, 10, 99, 100, 999, 1000, 1999, 2000, 2022, 2023, 9999] {
+        v.extend([(y, 1, 1), (y, 10, 10), (y, 12, 31)]);
+    }
+    v.extend([(2022, 12, 15), (2023, 10, 9), (2024, 8, 31), (2020, 11, 10), (2023, 2, 28)]);
+    v
+}
+
 pub fn run(ctx: &mut Ctx) {
     let thorough = ctx.tier.thorough();
-    ctx.rule = "case = one fact set (labelled DAG over HP:1, HP:118 + <= 2 terms, flag variant, record pattern) rendered as JAX files: all stanza orders, all gene-row and disease-row orders (<= 4 rows, rotations above), every single distractor, both loaders; plus all pairs of distractors on a set of base fact sets; differential against the Builder-built and binary-loaded ontology; distinct by construction; non-trivial = fact set with records of at least two kinds".into();
+    ctx.rule = "case = one fact set (labelled DAG over HP:1, HP:118 + <= 2 terms, flag variant, record pattern) rendered as JAX files: all stanza orders, all gene-row and disease-row orders (<= 4 rows, rotations above), every single distractor, both loaders, the gene file the loader does not read holding other rows or missing; plus all pairs of distractors on a set of base fact sets; plus one base fact set with every release date of a value grid, every record name of a list (empty, padded, non-ASCII, long) in every column layout, and two same-named records of each kind; differential against the Builder-built and binary-loaded ontology; distinct by construction; non-trivial = fact set with records of at least two kinds".into();
     ctx.assumptions = vec![
-        "only constructs occurring in JAX releases are generated (is_a lines carry the ' ! name' comment, stanzas are separated by one blank line, the header starts with format-version: 1.2)".into(),
+        "only constructs occurring in JAX releases or allowed there by the OBO format are generated (is_a lines carry the ' ! name' comment, stanzas are separated by one blank line, the header starts with format-version: 1.2; header tags in any order after it; consider / namespace tags; a repeated is_a line names the same parent once more); each gene file carries its own header line".into(),
         "records without any term cannot be expressed in the text formats".into(),
         "release years have four digits".into(),
+        "a file set without header block or without data-version line may be refused with an error; if it is loaded the release version is 0000-00-00".into(),
+        "an empty gene symbol / disease name may be refused with an error, but then in every column layout alike; padded and non-ASCII record names are kept byte for byte, as the Builder keeps them".into(),
+        "only the gene file a loader is documented to read counts: the folder holds a file with other rows (or no file) under the other name".into(),
     ];
     let family: Vec<(Facts, String)> = format_family(if thorough { 4 } else { 4 }, if thorough { 1 } else { 6 }).into_iter().map(|(f, w)| (textual(&f), w)).collect();
     // term names around and beyond the 255-byte limit of the BINARY format - the text format has no such limit
@@ -100,7 +199,7 @@ pub fn run(ctx: &mut Ctx) {
             family.push((f, format!("a term name of {len} x {unit:?} ({} bytes)", len * unit.len())));
         }
     }
-    ctx.space("family/orders-and-single-distractors", &format!("{} fact sets x (all stanza orders + gene-row orders + disease-row orders + is_a lines reversed + 29 single distractors) x from_standard, a subset also through from_standard_transitive; differential against Builder and binary", family.len()));
+    ctx.space("family/orders-and-single-distractors", &format!("{} fact sets x (all stanza orders + gene-row orders + disease-row orders + is_a lines reversed + {} single distractors) x from_standard, a subset also through from_standard_transitive; the folder holds a poison file under the name of the gene file the loader does not read (canonical rendering also without that file); differential against Builder and binary", family.len(), all_distractors(3).len()));
     for (f, what) in &family {
         if !ctx.take() {
             continue;
@@ -113,6 +212,8 @@ pub fn run(ctx: &mut Ctx) {
         let n = f.terms.len();
         let base_obs = with_opts(ctx, f, &JaxOpts::default(), false, "canonical");
         with_opts(ctx, f, &JaxOpts::default(), true, "canonical (transitive loader)");
+        other_file_absent(ctx, f, false);
+        other_file_absent(ctx, f, true);
         // differential: Builder (no flags) and binary
         if let Some(jobs) = &base_obs {
             if f.terms.iter().all(|t| !t.obsolete && t.replacement.is_none()) {
@@ -181,7 +282,7 @@ pub fn run(ctx: &mut Ctx) {
             let mut o = JaxOpts::default();
             o.distractors = vec![d.clone()];
             with_opts(ctx, f, &o, false, &format!("distractor {d:?}"));
-            if matches!(d, Distractor::GeneHeader(_) | Distractor::GeneTrailingColumns | Distractor::GeneMinimalColumns | Distractor::Typedef(_) | Distractor::ExtraTags | Distractor::TagsBetweenIsA | Distractor::ExplicitNotObsolete | Distractor::HpoaFilledColumns | Distractor::HpoaMinimalColumns | Distractor::NoHeaderBlock | Distractor::TagsBeforeName | Distractor::GeneHeaderLong(_) | Distractor::HpoaCommentLong(_) | Distractor::IsATrailingModifier) {
+            if also_transitive(&d) {
                 with_opts(ctx, f, &o, true, &format!("distractor {d:?} (transitive loader)"));
             }
         }
@@ -210,11 +311,174 @@ pub fn run(ctx: &mut Ctx) {
             }
         }
     }
+    // ---- one base fact set (three plain terms, two genes with rows, OMIM and ORPHA records) for the value spaces below
+    let base: Option<Facts> = family
+        .iter()
+        .find(|(f, _)| {
+            f.terms.len() == 3
+                && f.edges.len() >= 2
+                && f.terms.iter().all(|t| !t.obsolete && t.replacement.is_none() && !t.name.is_empty())
+                && [11u32, 22].iter().all(|g| f.anns.iter().any(|a| a.kind == Kind::Gene && a.id == *g))
+                && [Kind::Omim, Kind::Orpha].iter().all(|k| f.anns.iter().any(|a| a.kind == *k))
+        })
+        .map(|(f, _)| f.clone());
+    let builder_differential = |ctx: &mut Ctx, g: &Facts, jobs: &Obs, what: &str| {
+        ctx.transitions(g.n_steps());
+        match drive::build(g, Mode::Defaults) {
+            Ok(b) => match Obs::of(&b) {
+                Ok(bobs) => {
+                    ctx.exec();
+                    drive::check_same(ctx, &bobs, jobs, "from_standard vs Builder", &|| json!({"facts": g.to_json(), "variant": what}));
+                }
+                Err(i) => ctx.violation(&i.site, "[builder] read API inconsistent", json!({"facts": g.to_json(), "observed": i.what})),
+            },
+            Err(e) => ctx.violation("Builder", "[builder] construction fails on valid facts", json!({"facts": g.to_json(), "observed": e})),
+        }
+    };
+    // ---- release dates: the data-version line is text, every digit position takes every kind of value
+    if let Some(base) = &base {
+        let dates = release_dates();
+        ctx.space("bases/release-dates", &format!("one base fact set x {} release dates (2024: every month x days 1, 9, 10, 11, 19, 20, 21, 28, 29, 30, 31 where they exist; years 1, 9, 10, 99, 100, 999, 1000, 1999, 2000, 2022, 2023, 9999 x 01-01, 10-10, 12-31; five real release days) x header layouts (data-version on line 2; three other lines before it; extra lines after it) x both loaders", dates.len()));
+        for v in dates {
+            if !ctx.take() {
+                continue;
+            }
+            ctx.state();
+            ctx.nontrivial();
+            let mut g = base.clone();
+            g.version = v;
+            for ds in [vec![], vec![Distractor::HeaderLinesBeforeDataVersion], vec![Distractor::ExtraHeaderLines], vec![Distractor::HeaderLinesBeforeDataVersion, Distractor::ExtraHeaderLines, Distractor::NoTrailingNewline]] {
+                let mut o = JaxOpts::default();
+                o.distractors = ds;
+                with_opts(ctx, &g, &o, false, &format!("release {v:?}"));
+                with_opts(ctx, &g, &o, true, &format!("release {v:?} (transitive loader)"));
+            }
+            ctx.sample(|| json!({"release": format!("{:04}-{:02}-{:02}", v.0, v.1, v.2)}));
+        }
+    }
+    // ---- record names: gene symbols and disease names are free text between two tabs (or a tab and the line end)
+    if let Some(base) = &base {
+        let names: Vec<(&str, String)> = vec![
+            ("empty", String::new()),
+            ("a single blank", " ".into()),
+            ("blanks at both ends", " padded ".into()),
+            ("leading blank", " x".into()),
+            ("trailing blank", "x ".into()),
+            ("one non-ASCII letter", "\u{e9}".into()),
+            ("non-ASCII inside", "Beh\u{e7}et disease".into()),
+            ("the word NOT", "NOT".into()),
+            ("colon and blank", "a: b".into()),
+            ("hyphen, comma, digit", "Ehlers-Danlos syndrome, type 4".into()),
+            ("255 bytes", "G".repeat(255)),
+            ("256 bytes", "G".repeat(256)),
+            ("300 bytes", "a".repeat(300)),
+            ("150 two-byte letters", "\u{fc}".repeat(150)),
+            ("100 three-byte signs", "\u{20ac}".repeat(100)),
+            ("5000 bytes", "long ".repeat(1000)),
+        ];
+        let layouts: Vec<Vec<Distractor>> = vec![
+            vec![],
+            vec![Distractor::GeneMinimalColumns, Distractor::HpoaMinimalColumns],
+            vec![Distractor::GeneMinimalColumns, Distractor::HpoaMinimalColumns, Distractor::AnnotationFilesNoTrailingNewline],
+            vec![Distractor::GeneFilledColumns, Distractor::HpoaFilledColumns],
+            vec![Distractor::AnnotationFilesNoTrailingNewline],
+        ];
+        ctx.space("bases/record-names", &format!("one base fact set x {} names (empty, blanks, padded, non-ASCII, NOT, punctuation, 255 ... 5000 bytes) given to one gene / OMIM / ORPHA record x its rows in place and as last rows of the file x {} column layouts (full, minimal = name of a gene is the LAST column of phenotype_to_genes.txt, minimal without final newline, filled optional columns, full without final newline) x both loaders; against the model, canonical layout also against the Builder; the empty name may be refused, but then in every layout", names.len(), layouts.len()));
+        for (label, name) in &names {
+            for kind in [Kind::Gene, Kind::Omim, Kind::Orpha] {
+                if !ctx.take() {
+                    continue;
+                }
+                ctx.state();
+                ctx.nontrivial();
+                let rid = base.anns.iter().find(|a| a.kind == kind).map(|a| a.id).unwrap();
+                let mut g = base.clone();
+                for a in g.anns.iter_mut() {
+                    if a.kind == kind && a.id == rid {
+                        a.name = name.clone();
+                    }
+                }
+                let mut g_last = g.clone();
+                let (mut mine, others): (Vec<_>, Vec<_>) = g_last.anns.iter().cloned().partition(|a| a.kind == kind && a.id == rid);
+                g_last.anns = others;
+                g_last.anns.append(&mut mine);
+                // accepted? per loader, for the empty name
+                let mut accepted: [Vec<(bool, String)>; 2] = [vec![], vec![]];
+                for (rows, gg) in [("rows in place", &g), ("rows last in the file", &g_last)] {
+                    for (li, l) in layouts.iter().enumerate() {
+                        let mut o = JaxOpts::default();
+                        o.distractors = l.clone();
+                        for transitive in [false, true] {
+                            let what = format!("{} name {label} ({} bytes), {rows}, layout {l:?}", kind.name(), name.len());
+                            if name.is_empty() {
+                                if let (Some(acc), _) = tolerant_outcome(ctx, gg, &o, transitive, &what, "empty record name") {
+                                    accepted[transitive as usize].push((acc, format!("{rows}, {l:?}")));
+                                }
+                            } else {
+                                let obs = via_jax(ctx, gg, &o, transitive, &what);
+                                if let (Some(jobs), 0, false, true) = (&obs, li, transitive, rows == "rows in place") {
+                                    builder_differential(ctx, gg, jobs, &what);
+                                }
+                            }
+                        }
+                    }
+                }
+                for (t, acc) in accepted.iter().enumerate() {
+                    if let (Some(yes), Some(no)) = (acc.iter().find(|a| a.0), acc.iter().find(|a| !a.0)) {
+                        ctx.violation("Ontology::from_standard", &format!("[{}] an empty record name is accepted in one column layout and refused in another", if t == 1 { "jax transitive" } else { "jax" }), json!({"facts": g.to_json(), "kind": kind.name(), "accepted_with": yes.1, "refused_with": no.1}));
+                    }
+                }
+                ctx.sample(|| json!({"kind": kind.name(), "name": label, "bytes": name.len()}));
+            }
+        }
+    }
+    // ---- two records of one kind with the same name (two genes with one symbol, two diseases with one name)
+    if let Some(base) = &base {
+        let mut b2 = base.clone();
+        // a second OMIM record with rows (the family has one with rows and a bare one)
+        let (t0, t2) = (b2.terms[0].id, b2.terms[2].id);
+        b2.anns.insert(1, Facts::ann(Kind::Omim, 600_003, "Disease three", Some(t2)));
+        b2.anns.push(Facts::ann(Kind::Omim, 600_003, "Disease three", Some(t0)));
+        ctx.space("bases/shared-record-names", "one base fact set x kind (gene, OMIM, ORPHA) x the rows of the two same-named records adjacent / separated by a row of a third record x row order (as listed, reversed) x column layouts (full, minimal, minimal without final newline) x both loaders; against the model and the Builder: two ids are two records whatever they are called");
+        for kind in [Kind::Gene, Kind::Omim, Kind::Orpha] {
+            for adjacent in [true, false] {
+                if !ctx.take() {
+                    continue;
+                }
+                ctx.state();
+                ctx.nontrivial();
+                let Some(g) = jax::with_shared_name(&b2, kind, adjacent) else {
+                    ctx.violation("harness", "base fact set has fewer than two records of a kind with rows", json!({"kind": kind.name()}));
+                    continue;
+                };
+                let ng = g.anns.iter().filter(|a| a.kind == Kind::Gene).count();
+                let nd = g.anns.len() - ng;
+                for reversed in [false, true] {
+                    for l in [vec![], vec![Distractor::GeneMinimalColumns, Distractor::HpoaMinimalColumns], vec![Distractor::GeneMinimalColumns, Distractor::HpoaMinimalColumns, Distractor::AnnotationFilesNoTrailingNewline]] {
+                        let mut o = JaxOpts::default();
+                        o.distractors = l.clone();
+                        if reversed {
+                            o.gene_row_order = Some((0..ng).rev().collect());
+                            o.disease_row_order = Some((0..nd).rev().collect());
+                        }
+                        for transitive in [false, true] {
+                            let what = format!("two {} records with one name, rows {}{}, layout {l:?}", kind.name(), if adjacent { "adjacent" } else { "separated by a row of a third record" }, if reversed { ", files written bottom-up" } else { "" });
+                            let obs = via_jax(ctx, &g, &o, transitive, &what);
+                            if let (Some(jobs), true, false, false) = (&obs, l.is_empty(), transitive, reversed) {
+                                builder_differential(ctx, &g, jobs, &what);
+                            }
+                        }
+                    }
+                }
+                ctx.sample(|| json!({"kind": kind.name(), "adjacent": adjacent, "facts": g.to_json()}));
+            }
+        }
+    }
     // ---- pairs of distractors on base fact sets that have every record kind
     let bases: Vec<&(Facts, String)> = family.iter().filter(|(f, _)| [Kind::Gene, Kind::Omim, Kind::Orpha].iter().all(|k| f.anns.iter().any(|a| a.kind == *k)) && f.terms.len() >= 3).collect();
     let step = (bases.len() / if thorough { 40 } else { 10 }).max(1);
     let bases: Vec<&(Facts, String)> = bases.into_iter().step_by(step).collect();
-    ctx.space("bases/pairs-of-distractors", &format!("{} base fact sets x all 406 unordered pairs of distractors x both loaders", bases.len()));
+    ctx.space("bases/pairs-of-distractors", &format!("{} base fact sets x all {} unordered pairs of distractors x both loaders", bases.len(), { let n = all_distractors(3).len(); n * (n - 1) / 2 }));
     for (f, what) in bases {
         let ds = all_distractors(f.terms.len());
         for i in 0..ds.len() {
